@@ -23,7 +23,7 @@ RULE = (
     "per configuration (limit 1..4 x catching {default,class,tuple,set,empty tuple,empty set} x delay {None,int,float,"
     "function, function declared with *args only} x sync/async x inside/outside a scope) every reachable sequence of call outcomes "
     "over {value, caught, subclass of caught (one and two levels; unrenderable; unhashable), uncaught Exception, CancelledError, other "
-    "BaseException}; plus ONE wrapper used 2-3 times in a row (every outcome sequence per use over {value, caught, subclass, uncaught}, delay function depending on the exception); non-trivial = at least one retry happened or a non-retryable error ended it"
+    "BaseException}; plus ONE wrapper used 2-3 times in a row (every outcome sequence per use over {value, caught, subclass, uncaught}, delay function depending on the exception); long limits 6, 9, 17, 33 (65) with the first limit-2 .. limit calls failing with the caught class and every outcome sequence after that; non-trivial = at least one retry happened or a non-retryable error ended it"
 )
 ASSUMPTIONS = [
     "virtual time.sleep / asyncio.sleep (exact dyadic delays); the wrapped call itself takes no time",
@@ -106,6 +106,22 @@ def programs(tier: str):
         yield {"limit": 1, "catching": "default", "delay": "none", "mode": mode, "scoped": False, "limit_default": True, "bare": True}
     yield from _reuse_programs(tier)
     # two overlapping calls through one async wrapper: each has its own attempt budget
+    # every limit of the statement (1..4) in the quick tier as well, on a reduced option grid, and
+    # LONG limits (6, 9, 17, 33): the first k calls fail with the caught class (k = limit-2 ..
+    # limit), every outcome sequence after that - attempt counters, per-attempt delays and delay
+    # function arguments far beyond the small limits
+    for limit in (3, 4):
+        if limit in BOUNDS[tier]["limits"]:
+            continue
+        for catching in ("class", "tuple"):
+            for delay in ("none", "float", "fn"):
+                for mode in ("sync", "async"):
+                    yield {"limit": limit, "catching": catching, "delay": delay, "mode": mode, "scoped": False}
+    for limit in (6, 9, 17, 33) if tier == "quick" else (6, 9, 17, 33, 65):
+        for forced in (limit - 2, limit - 1, limit):
+            for delay in ("none", "float", "fn"):
+                for mode in ("sync", "async"):
+                    yield {"limit": limit, "catching": "class", "delay": delay, "mode": mode, "scoped": False, "forced": forced}
     for limit in BOUNDS[tier]["limits"][:2]:
         for a in itertools.product(("caught", "value"), repeat=limit + 1):
             for b in itertools.product(("caught", "value", "other"), repeat=limit + 1):
@@ -333,7 +349,9 @@ def execute(program, ch: Chooser) -> Result:  # noqa: C901, PLR0912, PLR0915
 
     def decide(args, kwargs):
         k = len(calls) + 1
-        if k > limit + 3:
+        if k <= program.get("forced", 0):
+            kind = "caught"  # long-limit family: the first `forced` calls fail with the caught class
+        elif k > limit + 3:
             # far beyond the allowed limit+1 calls: stop offering failures so that the choice
             # tree stays finite (the surplus calls are reported by the attempts clause)
             kind = "value"
@@ -429,7 +447,7 @@ def execute(program, ch: Chooser) -> Result:  # noqa: C901, PLR0912, PLR0915
                     got["out"] = ("raised", exc)
 
             task = loop.create_task(main())
-            for _ in range(100):
+            for _ in range(100 + 3 * limit):
                 loop.run_ready()
                 if task.done():
                     break
